@@ -932,6 +932,17 @@ func c08Gen(r *hx.Rng, n int, tier string) []string {
 	for c := 0; c < 60; c++ {
 		lines = append(lines, sivksLine(r, c%4 == 3))
 	}
+	// keys RFC 5297 does not single out but a "hardening" check might: equal halves (K1 = K2), all zero, all
+	// 0xff, one half zero - the property quantifies over ALL 64-byte keys (seeded change C08f)
+	for _, api := range apis {
+		for i, k := range [][]byte{make([]byte, 64), bytes.Repeat([]byte{0xff}, 64), append(bytes.Repeat([]byte{7}, 32), bytes.Repeat([]byte{7}, 32)...),
+			func() []byte { h := r.Bytes(32); return append(append([]byte{}, h...), h...) }(), append(make([]byte, 32), r.Bytes(32)...), append(r.Bytes(32), make([]byte, 32)...)} {
+			l := sivLine(r, api, vars[i%3], 64, []int{0, 5, 16, 33, 40, 17}[i], i)
+			f := strings.Split(l, "|")
+			f[5] = hx.H(k)
+			lines = append(lines, strings.Join(f, "|"))
+		}
+	}
 	// wrong key sizes (32 and 48 pass the parameter check, the primitive refuses)
 	for _, kl := range []int{0, 16, 32, 48, 63, 65, 128} {
 		for _, api := range []string{"sub", "key", "fac", "ks"} {
